@@ -1,5 +1,8 @@
 -- GENERATED from /repo sources by tools/extract.py on every check; do not edit
 namespace Elvis.Gen
+/-- `SocketAPI::get_ephemeral_port` reads and advances the port counter under one write lock
+    (false: a read lock, released, then a write lock) -/
+def socketEphemeralPortOneLock : Bool := true
 /-- the responder task logs the error `respond_to_query` returns; nothing is unwrapped before the reply is built -/
 def dnsServerReportsErrors : Bool := true
 /-- `get_host_by_name` unwraps nothing after `recv_msg` and checks `rdata.len() < 4` -/
